@@ -36,6 +36,7 @@ import (
 	"time"
 
 	corev1 "k8s.io/api/core/v1"
+	metav1 "k8s.io/apimachinery/pkg/apis/meta/v1"
 	"k8s.io/apimachinery/pkg/apis/meta/v1/unstructured"
 	kruntime "k8s.io/apimachinery/pkg/runtime"
 	"k8s.io/apimachinery/pkg/runtime/schema"
@@ -50,6 +51,7 @@ import (
 	"sigs.k8s.io/controller-runtime/pkg/reconcile"
 	"sigs.k8s.io/controller-runtime/pkg/source"
 
+	xpv1 "github.com/crossplane/crossplane-runtime/apis/common/v1"
 	"github.com/crossplane/crossplane-runtime/pkg/resource"
 	ucomposite "github.com/crossplane/crossplane-runtime/pkg/resource/unstructured/composite"
 
@@ -59,7 +61,12 @@ import (
 
 const c13Group = "c13.example.org"
 
+// kinds are numbered: g < 1000 is version v1 of kind K<g>, 1000+g is version v2 of the same
+// kind (a different GVK, hence a different watch).
 func c13GVK(g int) schema.GroupVersionKind {
+	if g >= 1000 {
+		return schema.GroupVersionKind{Group: c13Group, Version: "v2", Kind: "K" + strconv.Itoa(g-1000)}
+	}
 	return schema.GroupVersionKind{Group: c13Group, Version: "v1", Kind: "K" + strconv.Itoa(g)}
 }
 
@@ -68,10 +75,30 @@ func c13KindOf(gvk schema.GroupVersionKind) int {
 		return -1
 	}
 	n, err := strconv.Atoi(gvk.Kind[1:])
-	if err != nil {
+	if err != nil || n < 0 || n >= 1000 {
 		return -1
 	}
-	return n
+	switch gvk.Version {
+	case "v1":
+		return n
+	case "v2":
+		return 1000 + n
+	}
+	return -1
+}
+
+// c13Referenced is the set of kinds the XRs listed for a collector call reference: every well
+// formed reference of every XR that exists, whatever state the XR is in.
+func c13Referenced(xrs []c13XR) map[int]bool {
+	out := map[int]bool{}
+	for _, x := range xrs {
+		for _, ref := range x.Refs {
+			if ref.Bad == "" {
+				out[ref.G] = true
+			}
+		}
+	}
+	return out
 }
 
 func c13Obj(g int) *unstructured.Unstructured {
@@ -451,20 +478,46 @@ func (c *c13Client) List(_ context.Context, l client.ObjectList, _ ...client.Lis
 	if !ok || t == nil {
 		return nil
 	}
-	// one XR per referenced kind plus one XR referencing all of them (same set of kinds)
-	mk := func(kinds []int) unstructured.Unstructured {
+	for i, x := range t.op.Xrs {
 		xr := ucomposite.New()
+		xr.SetName("xr-" + strconv.Itoa(i))
 		refs := []corev1.ObjectReference{}
-		for _, g := range kinds {
-			refs = append(refs, corev1.ObjectReference{APIVersion: c13Group + "/v1", Kind: "K" + strconv.Itoa(g), Name: "r"})
+		for j, ref := range x.Refs {
+			gvk := c13GVK(ref.G)
+			av, kind := gvk.GroupVersion().String(), gvk.Kind
+			switch ref.Bad {
+			case "nokind":
+				kind = ""
+			case "noapi":
+				av = ""
+			}
+			refs = append(refs, corev1.ObjectReference{APIVersion: av, Kind: kind, Name: "r-" + strconv.Itoa(j)})
 		}
 		xr.SetResourceReferences(refs)
-		return xr.Unstructured
+		if x.Del {
+			// deleted, still there: a finalizer is pending (foreground deletion, slow composed resources, a Usage)
+			ts := metav1.NewTime(time.Unix(1700000000, 0))
+			xr.SetDeletionTimestamp(&ts)
+			xr.SetFinalizers([]string{"composite.apiextensions.crossplane.io"})
+		}
+		if x.Paused {
+			xr.SetAnnotations(map[string]string{"crossplane.io/paused": "true"})
+		}
+		if !x.NoComp {
+			xr.SetCompositionReference(&corev1.ObjectReference{Name: "comp"})
+		}
+		if x.NotReady {
+			xr.SetConditions(xpv1.Creating())
+		} else {
+			xr.SetConditions(xpv1.Available())
+		}
+		if x.Unsynced {
+			xr.SetConditions(xpv1.ReconcileError(errC13))
+		} else {
+			xr.SetConditions(xpv1.ReconcileSuccess())
+		}
+		ul.Items = append(ul.Items, xr.Unstructured)
 	}
-	for _, g := range t.op.Refs {
-		ul.Items = append(ul.Items, mk([]int{g}))
-	}
-	ul.Items = append(ul.Items, mk(t.op.Refs))
 	return nil
 }
 
@@ -482,10 +535,8 @@ func (g *c13GCEngine) StopWatches(ctx context.Context, name string, ws ...engine
 		if w.Type != engine.WatchTypeComposedResource {
 			g.r.mon("C13:gc-stopped-non-composed-watch", fmt.Sprintf("GarbageCollectWatchesNow asked StopWatches(%s) to stop the %s watch on kind %d", name, w.Type, k))
 		} else {
-			for _, ref := range g.t.op.Refs {
-				if ref == k {
-					g.r.mon("C13:gc-stopped-referenced-watch", fmt.Sprintf("GarbageCollectWatchesNow asked to stop the composed-resource watch on kind %d which an XR references", k))
-				}
+			if c13Referenced(g.t.op.Xrs)[k] {
+				g.r.mon("C13:gc-stopped-referenced-watch", fmt.Sprintf("GarbageCollectWatchesNow asked to stop the composed-resource watch on kind %d which an XR (one of %s) still references", k, mustJSON(g.t.op.Xrs)))
 			}
 		}
 	}
@@ -869,10 +920,7 @@ func (r *c13Run) afterDone(t *c13Thread, ghost map[int]int) {
 		for _, s := range c13WatchesStr(ws) {
 			after[s] = true
 		}
-		refd := map[int]bool{}
-		for _, g := range op.Refs {
-			refd[g] = true
-		}
+		refd := c13Referenced(op.Xrs)
 		for _, s := range t.before {
 			parts := strings.Split(s, "/")
 			g, _ := strconv.Atoi(parts[1])
@@ -881,7 +929,7 @@ func (r *c13Run) afterDone(t *c13Thread, ghost map[int]int) {
 				r.mon("C13:gc-kept-unreferenced-watch", "after GarbageCollectWatchesNow the composed-resource watch "+s+" that no XR references still runs")
 			}
 			if !should && !after[s] {
-				r.mon("C13:gc-wrong-set", "GarbageCollectWatchesNow stopped watch "+s+" (refs "+fmt.Sprint(op.Refs)+")")
+				r.mon("C13:gc-wrong-set", "GarbageCollectWatchesNow stopped watch "+s+" (XRs "+mustJSON(op.Xrs)+")")
 			}
 		}
 	}
